@@ -36,10 +36,10 @@ def gen_case(r: np.random.Generator, i: int, tier: str) -> dict:
          "lp": r.normal(0, 2, n).tolist() if present[1] else None,
          "lq": r.normal(0, 2, n).tolist() if present[2] else None,
          "beta": float(r.choice([0.0, 0.25, 1.0])) if cls == "smc" else None,
-         "logZ": float(r.normal()) if cls == "smc" and r.random() < 0.7 else None,
+         "logZ": (0.0 if r.random() < 0.3 else float(r.normal())) if cls == "smc" and r.random() < 0.7 else None,
          "logZerr": None}
     if c["logZ"] is not None:
-        c["logZerr"] = float(abs(r.normal()))
+        c["logZerr"] = 0.0 if r.random() < 0.2 else float(abs(r.normal()))
     if width == "f32":
         for k in ("x", "ll", "lp", "lq"):
             if c[k] is not None:
